@@ -10,7 +10,7 @@ CLAIMS = {
     'C02': ('status-propagation discipline in tonic itself: no handler/decoder error is dropped on the server, single-trailers typestate of the encoder, clean end-of-stream on the client only behind the trailers/HTTP-status gate, the Trailers-Only status read unconditionally, codec pairing of the compressed path. End-to-end equality under arbitrary HTTP/2 fragmentation (hyper/h2) is NOT decided.', 'MIR data-origin + typestate rules'),
     'C03': ('request pseudo-header/header constants, response content-type, prefix layout, flag in {0,1}, announced-encoding table, exactly-one-trailers typestate, client emits no trailers, the fallback of the router answers an unknown path as a gRPC response. Validity of compressed payload bytes is NOT decided.', 'MIR constant/table extraction + dominance rules'),
     'C04': ('the four status-code tables, the HTTP-status and HTTP/2-reason tables equal the spec tables row by row (exhaustive over rows); percent-encode set and base64 engines by constant evaluation; every potential panic site reachable from the header reader is enumerated and must be discharged; the Trailers-Only status is read unconditionally and nothing is read from the body after the trailers. Equality for all Unicode messages is NOT decided (library behaviour).', 'MIR decision-table extraction vs spec tables; panic-site reachability'),
-    'C05': ('every header-token -> encoding arm is guarded by the matching enabled-set test; refusal path builds UNIMPLEMENTED + accept list; send/accept field plumbing on all handlers and the client; flag-1-without-encoding -> INTERNAL; who-may-write: grpc-encoding / grpc-accept-encoding are written only at the three negotiation sites of the library crates of the workspace.', 'MIR decision rows + edge guards + field-origin plumbing'),
+    'C05': ('every header-token -> encoding arm is guarded by the matching enabled-set test; refusal path builds UNIMPLEMENTED + accept list; send/accept field plumbing on all handlers and the client; flag-1-without-encoding -> INTERNAL; who-may-write: grpc-encoding / grpc-accept-encoding are written only at the three negotiation sites of the library crates of the workspace.', 'MIR decision rows + edge guards + field-origin plumbing + who-may-write over all library crates'),
     'C06': ('limit comparison operator/operands, comparison dominates reserve and the prefix write, status codes, default constants, limit plumbing, no error return while encoded frames are still buffered, the limit is used for the wire length only (not handed to the decompressor), is_end_stream() reports the final-outcome flag. The numeric allocation bound itself is NOT measured.', 'MIR accept/reject-edge + path-sensitive reachability + operand-origin rules'),
     'C07': ('error-latch typestate of the decoder, no double report, panic-reachability of the receive path, header reads dominated by the length test, allocation sizes on the receive path computed from the frame length and settings only. Behaviour of prost/flate2/zstd on garbage is assumed from their signatures.', 'MIR typestate + panic-site reachability'),
     'C08': ('reserved-name table, who-may-call for unsanitised conversions, typed categorisation in all iterators and keyed accessors, type-parameter preservation in the entry API, base64 engines; 15 compile-fail witnesses (each with a compiling twin) that the public typed API cannot present a binary entry as ASCII or vice versa. The channel overwrites user-agent unconditionally (no other writer). Order/value preservation inside http::HeaderMap is NOT decided.', 'MIR who-may-call + signature/type-level rules + rustdoc compile_fail witnesses'),
@@ -19,12 +19,12 @@ CLAIMS = {
     'C11': ('generator templates share one path formatter; kind table; every generated instance in the workspace: client paths = server arms = NAME prefix, kinds agree; committed generated code (method arms, client methods and the fallback arm) is shape-identical to freshly generated code. Byte-exactness of committed files is NOT decided (would need running the generator).', 'MIR sibling agreement over generated code + template token reconstruction'),
     'C12': ('URI/method/version captured from and restored to the same request, SanitizeHeaders::No, inner service called only on the Ok arm, reject arm yields into_http + empty body whose status headers are written whole; Request::into_http(No) hands the metadata on untouched; compile-fail witnesses that an interceptor is a function of Request<()> (cannot touch the body).', 'MIR data-origin + edge-guard rules + rustdoc compile_fail witnesses'),
     'C13': ('ordering/pairing in the serve loop and connection task (signal -> send -> drop own receiver -> await closed; graceful_shutdown not abort; nothing accepted after send). Behaviour under every signal placement relies on hyper/tokio and is NOT decided.', 'MIR must-pass-through / reachability on pre-transform coroutine CFGs'),
-    'C14': ('typestate proof over Reconnect::poll_ready/call (Ready(Ok) => Connected or error pending; error handed off by take; failure resets to Idle; eager first failure returned), ConnectError -> UNAVAILABLE; every tonic layer of the client stack forwards each call to its inner service; the discovery stream of the balanced channel forwards every change. tower Buffer / hyper lifetimes are NOT decided.', 'MIR typestate interpretation'),
+    'C14': ('typestate proof over Reconnect::poll_ready/call (Ready(Ok) => Connected or error pending; error handed off by take; failure resets to Idle; eager first failure returned), ConnectError -> UNAVAILABLE; every tonic layer of the client stack forwards each call to its inner service; the discovery stream of the balanced channel forwards every change. tower Buffer / hyper lifetimes are NOT decided.', 'MIR typestate interpretation + must-forward rule over the client stack layers'),
     'C15': ('TLS wiring: https => TLS-or-error (no plaintext path), roots only from configured sources, no verifier override anywhere, domain flow, ALPN pushed and checked unless assume_http2, client-auth verifier shape, TLS accept precedes new_tls_io. rustls verification itself is NOT decided.', 'MIR edge-guard / must-pass / who-may-call rules under tls-ring'),
     'C16': ('dispatch table (POST/405/400/pass-through), content-type tables, accept-vs-content-type encoding flow, trailers-frame layout (0x80, BE length, every entry), leftover-at-EOF => error. Byte equality for all chunkings is NOT decided.', 'MIR decision rows + constant extraction'),
     'C17': ('reader/writer trailer grammar agreement (split at first colon only, multi-valued append), shared frame-flag constants, no re-poll after inner end, clean end only with empty residue.', 'MIR call-identity + loop reachability rules'),
     'C18': ('all map access under the lock, update = send on the stored sender, check = current value of stored receiver, watch = current-value-first stream of a clone, clear = remove, "" -> SERVING default, NOT_FOUND on both paths. Interleavings (tokio watch/RwLock semantics) are NOT decided.', 'MIR origin + call-identity rules'),
-    'C19': ('declaration-kind coverage table of the indexer, parent-qualified name construction, duplicate-file skip, NOT_FOUND, service-list source, v1 ≅ v1alpha isomorphism, every Ok answer of a lookup is the encoded descriptor, every answer of a stream is delivered with a waiting send.', 'MIR coverage table + sibling shape isomorphism'),
+    'C19': ('declaration-kind coverage table of the indexer, parent-qualified name construction, duplicate-file skip, NOT_FOUND, service-list source, v1 ≅ v1alpha isomorphism, every Ok answer of a lookup is the encoded descriptor, every answer of a stream is delivered with a waiting send.', 'MIR coverage table + sibling shape isomorphism + must-pass (every Ok behind the encoder) / call-identity rules'),
     'C20': ('10 kinds x 6 tables agreement, field-by-field From-pair agreement, inner status = outer code/message, decode side panic-free. prost round trip of message bodies is NOT decided.', 'MIR table agreement + field-origin rules'),
 }
 
